@@ -260,8 +260,9 @@ def judge(p, rust_line, spec_line):
     s_res, s_main, s_forks = k2.lean_flat(spec_line, p)
     i_res = k2.normalize_panic(res, p.base)
     ends = re.findall(r"ce:(\d+):(\d+):(\S+)", spec_line)
-    if s_res.startswith("ok F(") and p.is_try():
-        # earliest failing step of the reference; any failing chain of that step may win the race
+    if i_res != s_res and s_res.startswith("ok F(") and p.is_try() and any(v.startswith("F(") for (b, k, v) in ends):
+        # a branch fails: earliest failing step of the reference; any failing chain of that step may win the race
+        # (a failure returned by an `and_then` handler after all branches succeeded is not a race: plain comparison)
         fail_steps = [int(k) for (b, k, v) in ends if v.startswith("F(")]
         j = min(fail_steps) if fail_steps else None
         allowed = set("ok " + v for (b, k, v) in ends if v.startswith("F(") and int(k) == j)
